@@ -190,7 +190,8 @@ fn execute_inner(h: &History, root: &Path) -> Result<(bool, u64), Failure> {
     let scratch = root.join("scratch");
     std::fs::create_dir_all(&scratch).unwrap();
     std::fs::write(root.join("src/readme.txt"), "not a grammar").unwrap();
-    let rel = ["src/g0.ebnf", "src/sub/g1.v2.ebnf", "src/sub/deep/g2.ebnf"];
+    // names with several dots, a space and a non-ASCII letter
+    let rel = ["src/g0.ebnf", "src/sub/g1.v2.ebnf", "src/sub/deep/g 2 ü.ebnf"];
     let mut files: Vec<FileState> = (0..h.nfiles)
         .map(|i| {
             let g = root.join(rel[i]);
